@@ -374,6 +374,36 @@ pub async fn wait_peer_drained(ours: SocketAddr, peer: SocketAddr) {
 }
 
 /// Send `data` to `s` cut at `cuts`, waiting for the peer to drain between pieces.
+/// Jump the clock of the current (current-thread!) runtime by `secs`, letting every timer that became due run.
+pub async fn clock_jump(secs: u64) {
+    tokio::time::sleep(Duration::from_millis(15)).await;
+    if secs > 0 {
+        tokio::time::pause();
+        tokio::time::advance(Duration::from_secs(secs)).await;
+        tokio::time::resume();
+    }
+    tokio::time::sleep(Duration::from_millis(15)).await;
+}
+
+/// Like `send_fragmented`, with `gap_s` seconds of (virtual) silence after every piece but the last.
+pub async fn send_fragmented_gap(s: &mut TcpStream, data: &[u8], cuts: &[usize], gap_s: u64) -> std::io::Result<()> {
+    let ours = s.local_addr()?;
+    let peer = s.peer_addr()?;
+    let mut prev = 0;
+    for &c in cuts.iter().chain(std::iter::once(&data.len())) {
+        if c > prev && c <= data.len() {
+            s.write_all(&data[prev..c]).await?;
+            s.flush().await?;
+            if c < data.len() {
+                wait_peer_drained(ours, peer).await;
+                clock_jump(gap_s).await;
+            }
+            prev = c;
+        }
+    }
+    Ok(())
+}
+
 pub async fn send_fragmented(s: &mut TcpStream, data: &[u8], cuts: &[usize]) -> std::io::Result<()> {
     let ours = s.local_addr()?;
     let peer = s.peer_addr()?;
